@@ -69,6 +69,13 @@ var customMethods = []string{"GET", "BREW", "POST", "PROPFIND"}
 // serve sends raw bytes over an in-memory connection; a panic escaping the server is the observation.
 func serve(cfg string, raw []byte) (out []byte, panicked string) {
 	a := apps[cfg]
+	if cfg == "f" {
+		// fresh server: no pooled RequestCtx / header buffers, so stored header values have the
+		// capacity append gives them for their own length (see gen.go sizeClasses)
+		a = fiber.New()
+		a.All("/*", func(c fiber.Ctx) error { return op(c) })
+		_ = a.Handler()
+	}
 	if a == nil {
 		a = apps["d"]
 	}
